@@ -121,4 +121,59 @@ theorem sortLevels_perm (pairs : List (String × String)) : ∀ (fuel : Nat) (to
         List.Perm.append_left _ h1
       exact h2.trans (by unfold levelOutput; exact List.filter_append_perm _ _)
 
+/-- **fuel sufficiency**: with at least `todo.length` units of fuel the sort fails only on a genuine cycle —
+a non-empty sub-collection of the items in which every member still has a parent (the situation in which
+`sort_as_subsets` raises `CircularDependencyError`); it never fails because the fuel ran out. -/
+theorem sortLevels_fuel (pairs : List (String × String)) : ∀ (fuel : Nat) (todo : List String),
+    todo.length ≤ fuel → sortLevels fuel pairs todo = none →
+    ∃ stuck, stuck ≠ [] ∧ (∀ x ∈ stuck, x ∈ todo) ∧ levelOutput pairs stuck = [] := by
+  intro fuel
+  induction fuel with
+  | zero =>
+    intro todo hl h
+    cases todo with
+    | nil => simp [sortLevels] at h
+    | cons t ts => simp at hl
+  | succ n ih =>
+    intro todo hl h
+    cases todo with
+    | nil => simp [sortLevels] at h
+    | cons t ts =>
+      simp only [sortLevels] at h
+      split at h
+      · rename_i hemp
+        exact ⟨t :: ts, by simp, fun x hx => hx, List.isEmpty_iff.mp hemp⟩
+      · rename_i hne
+        simp only [Option.map_eq_none_iff] at h
+        have hne' : levelOutput pairs (t :: ts) ≠ [] := by
+          intro he; rw [he] at hne; simp at hne
+        obtain ⟨x, hx⟩ := List.exists_mem_of_ne_nil _ hne'
+        have hlt : ((t :: ts).filter (fun y => !(levelOutput pairs (t :: ts)).contains y)).length < (t :: ts).length :=
+          List.length_filter_lt_length_iff_exists.mpr ⟨x, levelOutput_sub hx, by simp [hx]⟩
+        obtain ⟨stuck, h1, h2, h3⟩ := ih _ (by simp only [List.length_cons] at hl hlt ⊢; omega) h
+        exact ⟨stuck, h1, fun y hy => (List.mem_filter.mp (h2 y hy)).1, h3⟩
+
+theorem topoSort_none (pairs : List (String × String)) (items : List String) (h : topoSort pairs items = none) :
+    ∃ stuck, stuck ≠ [] ∧ (∀ x ∈ stuck, x ∈ items) ∧ levelOutput pairs stuck = [] :=
+  sortLevels_fuel pairs _ _ (Nat.le_refl _) h
+
+/-- conversely such a stuck sub-collection really makes every amount of fuel fail: nothing of it is ever released -/
+theorem levelOutput_stuck {pairs : List (String × String)} {stuck todo : List String}
+    (hs : levelOutput pairs stuck = []) (hsub : ∀ x ∈ stuck, x ∈ todo) : ∀ x ∈ stuck, x ∉ levelOutput pairs todo := by
+  intro x hx hout
+  have hnot : x ∉ levelOutput pairs stuck := by rw [hs]; simp
+  apply hnot
+  unfold levelOutput at hout ⊢
+  refine List.mem_filter.mpr ⟨hx, ?_⟩
+  have := (List.mem_filter.mp hout).2
+  rw [List.all_eq_true] at this ⊢
+  intro p hp
+  have h1 := this p hp
+  simp only [Bool.not_eq_true', Bool.and_eq_false_iff] at h1 ⊢
+  rcases h1 with h1 | h1
+  · exact .inl h1
+  · right
+    simp only [List.contains_eq_mem, decide_eq_false_iff_not] at h1 ⊢
+    exact fun hm => h1 (hsub _ hm)
+
 end Lemmas.Batch
